@@ -331,6 +331,21 @@ def run_one(unit, run, exinfo, tier, want_trace=False, nocache=False, only_props
     return res
 
 
+def render_value(v, depth=0):
+    """CBMC json value -> python value (structs as dicts, arrays abbreviated to the first 24 elements)"""
+    if not isinstance(v, dict):
+        return v
+    if 'members' in v:
+        return {m.get('name'): render_value(m.get('value'), depth + 1) for m in v['members'] if not str(m.get('name', '')).startswith('$pad')}
+    if 'elements' in v:
+        els = [render_value(e.get('value'), depth + 1) for e in v['elements'][:24]]
+        if len(v['elements']) > 24:
+            els.append('... %d more' % (len(v['elements']) - 24))
+        return els
+    d = v.get('data', v.get('name'))
+    return d
+
+
 def compact_trace(trace):
     """keep assignments to harness/ghost variables and function call/returns"""
     out = []
@@ -343,11 +358,7 @@ def compact_trace(trace):
             if lhs.startswith('__CPROVER') or 'dfcc' in lhs or lhs.startswith('return_value___CPROVER'):
                 continue
             v = st.get('value', {})
-            val = v.get('data', v.get('name'))
-            if val is None and 'elements' in v:
-                val = '[...]'
-            if val is None and 'members' in v:
-                val = '{...}'
+            val = render_value(v)
             sl = st.get('sourceLocation', {})
             out.append(dict(lhs=lhs, value=val, fn=sl.get('function'), line=sl.get('line'), file=os.path.basename(sl.get('file', ''))))
         elif ty in ('function-call', 'function-return'):
@@ -356,7 +367,8 @@ def compact_trace(trace):
                 out.append(dict(step=ty, fn=fn))
         elif ty == 'failure':
             out.append(dict(step='failure', reason=st.get('reason'), property=st.get('property')))
-    return out[-400:]
+    head = [x for x in out[:-400] if 'lhs' in x and x.get('fn') and x['fn'].startswith('h_')]
+    return head + out[-400:]
 
 
 def select_runs(units, prop, tier):
